@@ -43,6 +43,16 @@ Definition select_outcome (comm : string) : string :=
 
 Definition ev_cmd_sends : list chanop := sends_on "eventLoop" "cmds".
 
+(* substring test, and "the extracted body of function n contains p" *)
+Fixpoint has_sub_from (n : nat) (p s : string) : bool :=
+  match n with
+  | O => String.prefix p s
+  | S k => String.prefix p s || match s with EmptyString => false | String _ t => has_sub_from k p t end
+  end.
+Definition has_sub (p s : string) : bool := has_sub_from (String.length s) p s.
+Definition shape_has (n p : string) : bool :=
+  match find (fun x => fst x =? n) Signals.shapes with Some (_, b) => has_sub p b | None => false end.
+
 Definition guards_of_gen : guards :=
   let facts := Signals.handle_signals_facts in
   {| (* keyed on where the send sits, not on its position among the sends of eventLoop: the BatchMsg case's body as
@@ -99,6 +109,12 @@ Definition guards_of_gen : guards :=
      g_rz_guarded := all_guarded (recvs_on "listenForResize" "sig") && all_guarded (sends_on "checkResize" "p.errs") &&
                      no_bare_send "checkResize" && no_bare_send "listenForResize" && send_is_guarded;
      g_sig_stays := negb (str_in "returns-after-forward" facts);
+     g_ticker_stopped_by_stopper :=
+       (* in the listener's body nothing touches the ticker but the receive from its channel; stop() and kill() stop it
+          inside the once.Do, after the send that the listener acknowledges *)
+       negb (shape_has "standardRenderer.listen" "ticker.Stop") &&
+       shape_has "standardRenderer.stop" "r.done <- struct{}{} r.stopTicker()" &&
+       shape_has "standardRenderer.kill" "r.done <- struct{}{} r.stopTicker()";
      g_restore_unignores_first :=
        match Lifecycle.restore_terminal_calls with
        | c :: _ => sc_call c =? "ignoreSignals=0"
